@@ -22,11 +22,13 @@ RULE = ("Hypothesis-generated operation histories (1 build + up to 5/9 further o
         "configuration (UCCSD closed/ROHF/UHF, UCC1/UCC3, UpCCGSD k=1..4, UCCGD, HEA, QMF, QCC, ILC, VSQS molecule/qubit form, pUCCD, "
         "ADAPT with the UCCGSD pool, VariationalCircuitAnsatz over generated circuits; molecules H2, H3 doublet, H4, LiH frozen, H4 UHF; "
         "encodings jw/bk/scbk/jkmn, both orderings). theta recipes: exact zeros, +-x, repeated values, beyond 2pi, 1e-9-small, all-zero, "
-        "previous vector with entries zeroed/sign-flipped. After every parameter-setting op the state of ansatz.circuit must equal (fidelity "
+        "previous vector with entries zeroed/sign-flipped. Every vector is handed over in one of six ways (fresh list / numpy array / tuple, "
+        "the object returned by ansatz.var_params edited in place, set_var_params(p) then update(p) with the same object, one caller-owned "
+        "vector re-used across calls with in-place edits) and must still hold the target values after the call. After every parameter-setting op the state of ansatz.circuit must equal (fidelity "
         ">= 1-1e-9) the state of a fresh object's build_circuit(theta); VSQS is additionally compared with the Trotter product it documents "
         "(its build path may delegate to the update path). Wrong-length vectors must raise and leave the circuit's state unchanged; all-zero "
         "vectors of the excitation-based ansaetze must give the reference determinant. Non-trivial = the history has >=1 update_var_params after a build AND "
-        "(two consecutive accepted vectors with different zero patterns, or k>=3, or a wrong-length attempt, or an ADAPT add_operator). "
+        "(two consecutive accepted vectors with different zero patterns, or k>=3, or a wrong-length attempt, or an ADAPT add_operator, or an update through one of the aliasing hand-over modes). "
         "Distinct = distinct canonical JSON of (configuration, op list).")
 ASSUMPTIONS = ["numpy linear algebra", "reference gate table/simulator in vlib/refsim.py (self-tested)",
                "molecule objects (PySCF SCF, integrals) are trusted inputs here: a fixed pool of 5 molecules is built once per process",
@@ -58,23 +60,32 @@ def selftest():
 
 # ------------------------------------------------------------------------------------------------ op records / histories
 
+# How the caller hands the vector over ("pass" field of an op record, plain data):
+#   list / numpy / tuple   a fresh object of that type
+#   stored                 the object returned by ansatz.var_params, edited in place to the target values, then passed
+#   set_then_update        p fresh; ansatz.set_var_params(p) followed by update_var_params(p) / build_circuit(p) with the same object
+#   reuse                  one caller-owned list/array re-used across successive calls with in-place edits in between
+PASS_MODES = ["list", "list", "list", "numpy", "numpy", "tuple", "stored", "stored", "set_then_update", "set_then_update", "reuse", "reuse"]
+
+
 @st.composite
 def op_records(draw, fam, first):
     flag = draw(st.booleans())
+    how = draw(st.sampled_from(PASS_MODES))
     if first:
         kind = "update" if (fam == "VarCirc" and draw(st.integers(0, 2)) == 0) else "build"   # VarCirc: circuit exists from construction
-        return {"op": kind, "th": draw(recipes()), "np": flag}
+        return {"op": kind, "th": draw(recipes()), "np": flag, "pass": how}
     sel = draw(st.integers(0, 17 if fam == "ADAPT" else 10))
     if sel <= 5:
-        return {"op": "update", "th": draw(recipes()), "np": flag}
+        return {"op": "update", "th": draw(recipes()), "np": flag, "pass": how}
     if sel == 6:
-        return {"op": "build", "th": draw(recipes()), "np": flag}
+        return {"op": "build", "th": draw(recipes()), "np": flag, "pass": how}
     if sel == 7:
         return {"op": "build_kw", "kw": draw(st.integers(0, 7))}
     if sel in (8, 9):
-        return {"op": "bad_update", "d": draw(st.sampled_from([-2, -1, 1, 2, 5])), "th": draw(recipes()), "np": flag}
+        return {"op": "bad_update", "d": draw(st.sampled_from([-2, -1, 1, 2, 5])), "th": draw(recipes()), "np": flag, "pass": how}
     if sel == 10:
-        return {"op": "bad_build", "d": draw(st.sampled_from([-1, 1, 3])), "th": draw(recipes()), "np": flag}
+        return {"op": "bad_build", "d": draw(st.sampled_from([-1, 1, 3])), "th": draw(recipes()), "np": flag, "pass": how}
     return {"op": "add_op", "i": draw(st.integers(0, 199))}
 
 
@@ -157,8 +168,44 @@ def run_history(ctx, case):
     patterns, n_updates, support_change, bad_attempt = [], 0, False, False
     prev_was_accept = False
 
+    carrier = [None]                                      # caller-owned vector of the "reuse" mode
+    aliasing_update = [False]
+
     def np_or_list(th, as_np):
         return np.array(th, dtype=float) if as_np else list(th)
+
+    def hand_over(op, th, simple=False):
+        """Returns (object to pass, mode actually used, call set_var_params first?). Records without "pass" (old replays) use "np"."""
+        mode = op.get("pass") or ("numpy" if op.get("np") else "list")
+        if simple and mode in ("stored", "set_then_update", "reuse"):       # wrong-length attempts: fresh objects only
+            mode = "numpy" if op.get("np") else "list"
+        if mode == "stored":
+            v = obj.var_params
+            if isinstance(v, (list, np.ndarray)) and len(v) == len(th) and not (isinstance(v, np.ndarray) and v.dtype.kind != "f"):
+                v[:] = th
+                return v, "stored", False
+            labels.add("pass=stored:not-available")
+            return list(th), "list", False
+        if mode == "reuse":
+            c = carrier[0]
+            if c is None or len(c) != len(th):
+                c = carrier[0] = np_or_list(th, op.get("np"))
+                labels.add("pass=reuse:new-carrier")
+            else:
+                c[:] = th
+                labels.add("pass=reuse:edited-in-place")
+            return c, "reuse", False
+        if mode == "set_then_update":
+            return np_or_list(th, op.get("np")), mode, True
+        if mode == "tuple":
+            return tuple(th), mode, False
+        return np_or_list(th, mode == "numpy"), mode, False
+
+    def still_holds(vec, th, how):
+        got = [float(x) for x in vec]
+        if len(got) != len(th) or any(g != t for g, t in zip(got, th)):
+            raise Fail(f"{a}.{how} modified the caller's parameter vector: passed {list(th)}, afterwards {got}",
+                       sig=f"{a}.{how}:argument-mutated", passed=list(th), afterwards=got)
 
     def check_equiv(th, how):
         nonlocal last_state, last_n
@@ -206,13 +253,21 @@ def run_history(ctx, case):
             if kind == "update" and not built:
                 kind = "build"
             th = expand(op["th"], n, theta)
+            vec, mode, set_first = hand_over(op, th)
             with quiet():
+                if set_first:
+                    obj.set_var_params(vec)
                 if kind == "build":
-                    obj.build_circuit(np_or_list(th, op["np"]))
+                    obj.build_circuit(vec)
                     built = True
                 else:
-                    obj.update_var_params(np_or_list(th, op["np"]))
+                    obj.update_var_params(vec)
                     n_updates += 1
+            still_holds(vec, th, "build_circuit" if kind == "build" else "update_var_params")
+            labels.add(f"pass={mode}")
+            labels.add(f"pass={mode}:{kind}")
+            if kind == "update" and mode in ("stored", "set_then_update", "reuse"):
+                aliasing_update[0] = True
             if obj.n_var_params != n:
                 raise Fail(f"{a}: n_var_params changed from {n} to {obj.n_var_params} by {kind}", sig=f"n_var_params-changed:{a}")
             pat = tuple(x == 0.0 for x in th)
@@ -234,7 +289,7 @@ def run_history(ctx, case):
                 labels.add("repeated-values")
             if kind == "build" and any(x == 0.0 for x in th) and not all(x == 0.0 for x in th):
                 labels.add("zero-entry-at-build")
-            if op["np"]:
+            if isinstance(vec, np.ndarray):
                 labels.add("numpy-vector")
             labels.add(kind)
             check_equiv(th, f"{kind}#{step}")
@@ -267,12 +322,14 @@ def run_history(ctx, case):
             how = "update_var_params" if kind == "bad_update" else "build_circuit"
             bad_attempt = True
             labels.add(("short-" if m < n else "long-") + how)
+            vec, mode, _ = hand_over(op, th, simple=True)
+            labels.add(f"pass={mode}:wrong-length")
             try:
                 with quiet():
                     if kind == "bad_update":
-                        obj.update_var_params(np_or_list(th, op["np"]))
+                        obj.update_var_params(vec)
                     else:
-                        obj.build_circuit(np_or_list(th, op["np"]))
+                        obj.build_circuit(vec)
             except (ValueError, AssertionError):
                 pass
             else:
@@ -300,7 +357,7 @@ def run_history(ctx, case):
                 labels.add("adapt-ops>=2")
         else:
             raise KeyError(kind)
-    nontrivial = n_updates >= 1 and (support_change or tag.endswith("k>=3") or bad_attempt or bool(adapt_ops))
+    nontrivial = n_updates >= 1 and (support_change or tag.endswith("k>=3") or bad_attempt or bool(adapt_ops) or aliasing_update[0])
     return nontrivial, labels
 
 
